@@ -80,60 +80,68 @@ def stringToSatoshis (s : Bytes) : Amt :=
 structure KeyRec where
   pub : Bytes       -- keys[i].BtcAddr.Pubkey (33 bytes compressed; 65 bytes for an uncompressed key imported through .others)
   h160 : Bytes      -- keys[i].BtcAddr.Hash160
-  segH160 : Bytes   -- segwit[i].Hash160 : HASH160(00 14 h160) unless bech32_mode, else 20 zero bytes;
-                    -- [] stands for segwit[i] == nil (a key that is not compressed has no SegWit form): every hash the
-                    -- look-ups compare it with has 20 bytes, so [] never matches - the `segwit[i] != nil &&` guards
+  segH160 : Bytes   -- the P2SH-P2WPKH script hash of key i AS THE LOOK-UPS READ IT (scripthash_to_key_idx, since the fix of
+                    -- the cross-template aliases): segwit[i].Hash160 = HASH160(00 14 h160) when segwit[i] is a P2SH address;
+                    -- [] when there is none to compare: segwit[i] == nil (a key that is not compressed has no SegWit form) or
+                    -- segwit[i] is a witness-program address (bech32 / tap mode: `SegwitProg != nil`; its Hash160 field is
+                    -- 20 zero bytes, which the wallet compared with script hashes before the fix and no longer reads)
   deriving Repr, DecidableEq
 
-def zero20 : Bytes := List.replicate 20 0
-
 /-- make_wallet: "Calculate SegWit addresses" - one entry per key, AT THE KEY'S OWN INDEX (`segwit[i]`, the slice is
-    made with len(keys)); `if len(pk.Pubkey) != 33 { continue }` leaves the entry nil -/
+    made with len(keys)); `if len(pk.Pubkey) != 33 { continue }` leaves the entry nil; in bech32_mode the entry is a
+    witness-program address (no script hash) -/
 def mkKey (H : Addr.Hashes) (bech32 : Bool) (pub : Bytes) : KeyRec :=
   let h := H.hash160 pub
   { pub := pub, h160 := h,
-    segH160 := if pub.length ≠ 33 then [] else if bech32 then zero20 else H.hash160 ([0, 20] ++ h) }
+    segH160 := if pub.length ≠ 33 then [] else if bech32 then [] else H.hash160 ([0, 20] ++ h) }
 
 /-- keys[] in the order make_wallet builds it: the keys of the .others file first (load_others), then the `keycnt`
     deterministic ones; segwit[] is index-parallel to it (a record per index here) -/
 def keyTable (H : Addr.Hashes) (bech32 : Bool) (pubs : List Bytes) : List KeyRec :=
   pubs.map (mkKey H bech32)
 
-/-- The two Go slices as they are: `keys` and the separately built `segwit`. `segTable` mirrors the loop
-    `segwit = make(.., len(keys)); for i, pk := range keys { if len(pk.Pubkey) != 33 { continue }; segwit[i] = … }`:
-    `none` = nil entry. `Proofs/C13Keys.lean` proves that the record table above IS these two slices zipped index by
-    index (`keyTable_is_zip`), i.e. what an `append`-built segwit slice would break. -/
+/-- A second, slice-level transcription of the same loop (neither the oracle nor the harness runs it; it exists so that
+    `Proofs/C13Keys.lean` can state that the record table above equals two separately built slices zipped index by
+    index — what an `append`-built segwit slice would break): `segwit = make(.., len(keys)); for i, pk := range keys {
+    if len(pk.Pubkey) != 33 { continue }; segwit[i] = … }`. `none` = no P2SH address at that index (nil entry, or a
+    witness-program address in bech32_mode). -/
 def segTable (H : Addr.Hashes) (bech32 : Bool) (pubs : List Bytes) : List (Option Bytes) :=
   pubs.map fun pub =>
     if pub.length ≠ 33 then none
-    else some (if bech32 then zero20 else H.hash160 ([0, 20] ++ H.hash160 pub))
+    else if bech32 then none else some (H.hash160 ([0, 20] ++ H.hash160 pub))
 
-/-- hash_to_key_idx written over the two slices, as in wallet.go: one loop over the index range of keys[], testing
-    `keys[i].Hash160` and then `segwit[i] != nil && segwit[i].Hash160` -/
-def hashToKeyIdxSlices (H : Addr.Hashes) (pubs : List Bytes) (seg : List (Option Bytes)) (h : Bytes) : Option Nat :=
+/-- pubhash_to_key_idx: `for i := range keys { if bytes.Equal(keys[i].BtcAddr.Hash160[:], h160) { return i } }` -/
+def pubHashToKeyIdx (ks : List KeyRec) (h : Bytes) : Option Nat :=
+  ks.findIdx? (fun k => k.h160 == h)
+
+/-- scripthash_to_key_idx: `for i := range keys { if segwit[i] != nil && segwit[i].SegwitProg == nil &&
+    bytes.Equal(segwit[i].Hash160[:], h160) { return i } }` -/
+def scriptHashToKeyIdx (ks : List KeyRec) (h : Bytes) : Option Nat :=
+  ks.findIdx? (fun k => k.segH160 != [] && k.segH160 == h)
+
+/-- scripthash_to_key_idx written over the two slices of the second transcription: one loop over the index range of
+    keys[], testing `segwit[i]` for "is a P2SH address" and then its hash -/
+def scriptHashToKeyIdxSlices (pubs : List Bytes) (seg : List (Option Bytes)) (h : Bytes) : Option Nat :=
   (List.range pubs.length).find? fun i =>
-    H.hash160 (pubs.getD i []) == h ||
-    (match seg.getD i none with
-     | some s => s == h
-     | none => false)
-
-/-- hash_to_key_idx -/
-def hashToKeyIdx (ks : List KeyRec) (h : Bytes) : Option Nat :=
-  ks.findIdx? (fun k => k.h160 == h || k.segH160 == h)
+    match seg.getD i none with
+    | some s => s != [] && s == h
+    | none => false
 
 /-- public_xo_to_key_idx -/
 def xoToKeyIdx (ks : List KeyRec) (x : Bytes) : Option Nat :=
   ks.findIdx? (fun k => (k.pub.drop 1).take 32 == x)
 
-/-- pkscr_to_key (index instead of pointer) -/
+/-- pkscr_to_key_idx (since the fix: every template is matched against ITS OWN hash only - P2KH and P2WPKH carry the
+    hash of the public key, P2SH the hash of the key's 00 14 <key hash> script; before it all three looked the 20 bytes
+    up among both hashes, and the P2SH test did not read the push-length byte) -/
 def pkscrToKey (ks : List KeyRec) (scr : Bytes) : Option Nat :=
   let at_ (i : Nat) : UInt8 := scr.getD i 0
   if scr.length = 25 ∧ at_ 0 = 0x76 ∧ at_ 1 = 0xa9 ∧ at_ 2 = 0x14 ∧ at_ 23 = 0x88 ∧ at_ 24 = 0xac then
-    hashToKeyIdx ks ((scr.drop 3).take 20)
-  else if scr.length = 23 ∧ at_ 0 = 0xa9 ∧ at_ 22 = 0x87 then
-    hashToKeyIdx ks ((scr.drop 2).take 20)
+    pubHashToKeyIdx ks ((scr.drop 3).take 20)
+  else if scr.length = 23 ∧ at_ 0 = 0xa9 ∧ at_ 1 = 0x14 ∧ at_ 22 = 0x87 then
+    scriptHashToKeyIdx ks ((scr.drop 2).take 20)
   else if scr.length = 22 ∧ at_ 0 = 0x00 ∧ at_ 1 = 0x14 then
-    hashToKeyIdx ks (scr.drop 2)
+    pubHashToKeyIdx ks (scr.drop 2)
   else if scr.length = 34 ∧ at_ 0 = 0x51 ∧ at_ 1 = 32 then
     xoToKeyIdx ks (scr.drop 2)
   else none
@@ -442,7 +450,7 @@ def signInput (H : Addr.Hashes) (c : Cfg) (ks : List KeyRec) (sig : SigFn) (i : 
       match Addr.isWitnessProgram uo.script with
       | some (ver, prog) =>
         if prog.length = 20 ∧ ver = 0 then
-          match hashToKeyIdx ks prog with
+          match pubHashToKeyIdx ks prog with
           | none => .skip
           | some k =>
             let kr := ks.getD k ⟨[], [], []⟩
@@ -450,10 +458,8 @@ def signInput (H : Addr.Hashes) (c : Cfg) (ks : List KeyRec) (sig : SigFn) (i : 
               witness := some [sig i (.witv0 k (p2pkhScript kr.h160) uo.value) ++ [1], kr.pub],
               signed := true }
         else if prog.length = 32 ∧ ver = 1 then
-          match (match xoToKeyIdx ks prog with
-                 | some k => some k
-                 | none => hashToKeyIdx ks zero20) with   -- adr.Hash160 of a segwit address is all zero
-          | none => .skip
+          match xoToKeyIdx ks prog with          -- no fall-back any more (before the fix: hash_to_key_idx of the
+          | none => .skip                        --  all-zero Hash160 of the segwit address, key 0 in bech32 mode)
           | some k =>
             let s := sig i (.taproot k)
             if s.length = 64 then { scriptSig := none, witness := some [s], signed := true }
@@ -463,7 +469,8 @@ def signInput (H : Addr.Hashes) (c : Cfg) (ks : List KeyRec) (sig : SigFn) (i : 
         match adr with
         | .segwit _ _ _ => .skip     -- unreachable: a segwit address comes from a witness program
         | .b58 ver h _ =>
-          match hashToKeyIdx ks h with
+          -- `adr.Version == ver_script()` ⇒ scripthash_to_key_idx, else (P2KH; P2PK) pubhash_to_key_idx
+          match (if ver = verScript c.testnet then scriptHashToKeyIdx ks h else pubHashToKeyIdx ks h) with
           | none => .skip
           | some k =>
             let kr := ks.getD k ⟨[], [], []⟩
